@@ -29,7 +29,7 @@ schema { query: Query mutation: Mutation }
 """root"""
 directive @oneOf on INPUT_OBJECT
 directive @tagged(name: String) on FIELD_DEFINITION | INPUT_FIELD_DEFINITION | OBJECT | ENUM_VALUE | ARGUMENT_DEFINITION
-type Query { node(id: ID!): Node  nodes: [Node!]  user(id: ID!, filter: Filter): User  lookup(by: Lookup @tagged(name: "arg")): User  search(text: String = "x", kinds: [Kind!] = [A]): [Result!]!  _service(where: _text_exp, any: _Any): _Service }
+type Query { node(id: ID!): Node  nodes: [Node!]  ranked(limit: Int! = 10, kind: Kind! = B, tags: [String!]! = ["t"]): [User!]  user(id: ID!, filter: Filter): User  lookup(by: Lookup @tagged(name: "arg")): User  search(text: String = "x", kinds: [Kind!] = [A]): [Result!]!  _service(where: _text_exp, any: _Any): _Service }
 type Mutation { update(data: UserInput!, opts: Options = {dry: true, level: 2}): User }
 """a user"""
 type User implements Node { id: ID! name: String kind: Kind! friends: [User!] seen: Instant uid: Ident }
@@ -132,7 +132,9 @@ def _generate(cfg_extra, queries, patch_post=None, root=None):
         f.write(queries)
     cfg = dict(target_package_name=pkg, target_package_path=root, include_comments="none", plugins=[],
                queries_path=os.path.join(root, "queries.graphql"),
-               scalars={"DateTime": {"type": "datetime.datetime"}})
+               scalars={"DateTime": {"type": "datetime.datetime"}},
+               # the query builder's modules are part of the client, too (their signatures must not depend on the source either)
+               enable_custom_operations=True)
     cfg.update(cfg_extra(root))
     out = io.StringIO()
     ctx = mock.patch("ariadne_codegen.schema.httpx.post", patch_post) if patch_post else contextlib.nullcontext()
@@ -233,7 +235,7 @@ def _norm(fname, src):
     """the order of the class definitions of input_types.py / enums.py follows the order of the schema's definitions
     and is not part of the statement (`identical result models, enums, ...`): compared as a set of statements"""
     import ast
-    if src is None or fname not in ("input_types.py", "enums.py"):
+    if src is None or fname not in ("input_types.py", "enums.py", "custom_typing_fields.py", "custom_fields.py"):
         return src
     return sorted(ast.unparse(st) for st in ast.parse(src).body)
 
